@@ -787,7 +787,7 @@ def canonicalise_locals(m):
         strip_noise(m.tree)
         m._noise_stripped = True
     pinned = _pinned_order()
-    if not pinned:
+    if not pinned or os.environ.get('SCVERIF_NO_CANON'):     # tools/gen_locals.py records the names as they are
         return
     for fq, fn in _outer_functions(m):
         want = pinned.get(fq)
